@@ -167,6 +167,7 @@ CHECKS = {
         "tests": [
             {"name": "TestC13Dashes", "checks": [3000, 100000], "shards": [2, 16], "floor": 0.7},
             {"name": "TestC13Singles", "enum": True},
+            {"name": "TestC13TokenSweep", "enum": True},
             K,
         ],
         "assumptions": ["a dash affects only the text segment adjacent to its delimiter (an all-blank segment is removed entirely; trimming does not continue beyond the next tag)"],
